@@ -291,7 +291,49 @@ Proof.
     assert (Eit : eval ss it = Ok (ss, PList xs)) by reflexivity end.
   step_for Eit. fold ops_body.
   destruct xs as [|x0 xr].
-  - admit.
+  - (* no operands *)
+    cbn [seq_compile PyMiniLemmas.for_loop bind]. unfold p_function.
+    specialize (Hheap t0 []). cbn [map] in Hheap.
+    pose proof (Hfl []) as Hfl0. cbn [map] in Hfl0.
+    destruct (String.eqb fname "coalesce") eqn:Eco.
+    + step_if true ltac:(norm; streq fname "coalesce"; rewrite Eco; reflexivity).
+      step_if_core true ltac:(reflexivity). cbn. reflexivity.
+    + step_if false ltac:(norm; streq fname "coalesce"; rewrite Eco; reflexivity).
+      remember (XListComp (XPrim "fstring" [XCallMethod (XAttr (XAttr (XName "operand") "dtype") "__name__") "lower" []])
+                  "operand" (XName "operands") None) as LC2 eqn:ELC2.
+      remember (XListComp (XPrim "isinstance:beanquery.query_compile.EvalConstant" [XName "operand"]) "operand"
+                  (XName "operands") None) as LC3 eqn:ELC3.
+      step. change (call_ref 0%nat) with (call_ref kFL). rewrite Hfl0.
+      destruct (Compile.function_lookup R.functions fname []) as [[i o]|] eqn:El;
+        cbn [enc_cfound]; rewrite ?enc_class_CLS; cbn.
+      2:{ step_if true ltac:(reflexivity). cbn.
+          subst LC2. erewrite eval_listcomp_gen by reflexivity. cbn. reflexivity. }
+      step_if false ltac:(reflexivity).
+      unfold is_meta.
+      destruct (String.eqb fname "meta") eqn:Em1.
+      { step_if true ltac:(norm; streq fname "meta"; rewrite Em1; reflexivity). cbn. reflexivity. }
+      step_if false ltac:(norm; streq fname "meta"; rewrite Em1; reflexivity).
+      destruct (String.eqb fname "entry_meta") eqn:Em2.
+      { step_if true ltac:(norm; streq fname "entry_meta"; rewrite Em2; reflexivity). cbn. reflexivity. }
+      step_if false ltac:(norm; streq fname "entry_meta"; rewrite Em2; reflexivity).
+      destruct (String.eqb fname "any_meta") eqn:Em3.
+      { step_if true ltac:(norm; streq fname "any_meta"; rewrite Em3; reflexivity). cbn. reflexivity. }
+      step_if false ltac:(norm; streq fname "any_meta"; rewrite Em3; reflexivity).
+      cbn [orb].
+      assert (Hnf : nth_error (Compile.overloads R.functions fname) i = Some o) by (apply function_lookup_nth in El; exact El).
+      specialize (Hheap i o eq_refl eq_refl).
+      step. rewrite (apply_fn tbl mk fname i o ctx [] Hnf : apply_class tbl mk (CLS false fname i o) [ctx; PList []] = _).
+      cbn [map] in *. cbn.
+      set (FN := func_node fname i o []) in *.
+      assert (Hpure : node_pure FN = Compile.ov_pure o).
+      { unfold FN, func_node, node_pure, class_overload. now rewrite Hnf. }
+      unfold Compile.build_call. cbn [forallb andb map].
+      subst TL.
+      destruct (Compile.ov_pure o) eqn:Ep.
+      * step_if true ltac:(cbn; subst LC3; erewrite eval_listcomp_gen by reflexivity; norm; rewrite Hheap, Hpure; reflexivity).
+        norm. rewrite Hheap, unzs_zs. reflexivity.
+      * step_if false ltac:(cbn; subst LC3; erewrite eval_listcomp_gen by reflexivity; norm; rewrite Hheap, Hpure; reflexivity).
+        subst TL. cbn. reflexivity.
   - (* the first operand by hand, the others by ops_loop *)
     cbn [seq_compile PyMiniLemmas.for_loop]. unfold ops_body at 1.
     cbn [write locals fields update String.eqb Ascii.eqb Bool.eqb].
@@ -392,7 +434,48 @@ Proof.
       * step_if false ltac:(cbn; subst LC3; erewrite eval_listcomp_gen by reflexivity; rewrite comp_isconst; cbn;
                             rewrite all_consts, Eall; reflexivity).
         subst TL. cbn. reflexivity.
-  (*DBG*)
+Qed.
+
+(* [p_function] is the model's Compile.build_function for every function that is not one of the three rewritten meta
+   functions (for those the method returns what compiling the rewritten node returns) *)
+Lemma p_function_model (tb : Compile.table) t1 fname xs pinfo ops :
+  is_meta fname = false ->
+  p_function t1 fname xs pinfo ops =
+  match Compile.build_function tb fname (map tbl ops) with
+  | Compile.Ok n => Ok (flds t1, nref (mk n))
+  | Compile.Err e => Exc (CompErr e)
+  end.
+Proof.
+  unfold is_meta, p_function, Compile.build_function. intros Hm.
+  apply orb_false_iff in Hm as [Hm Hm3]. apply orb_false_iff in Hm as [Hm1 Hm2].
+  destruct (String.eqb fname "coalesce").
+  - destruct ops as [|f r]; [reflexivity|]. cbn [map].
+    destruct (Compile.coalesce_check (Compile.dtype (tbl f)) (tbl f :: map tbl r)); reflexivity.
+  - rewrite map_map.
+    destruct (Compile.function_lookup R.functions fname (map (fun i => Compile.dtype (tbl i)) ops)) as [[i o]|];
+      [|reflexivity].
+    unfold is_meta. rewrite Hm1, Hm2, Hm3. reflexivity.
+Qed.
+
+Theorem function_model_src : forall (tb : Compile.table) (t0 pinfo : pv) (fname : string) (xs : list pv),
+  is_meta fname = false ->
+  (forall ops, call_ref kFL [enc_functions; PStr fname; PList (map nref ops)] =
+               enc_cfound false fname (Compile.function_lookup R.functions fname (map (fun i => Compile.dtype (tbl i)) ops))) ->
+  (forall t1 ops i o, seq_compile t0 xs = Compile.Ok (t1, ops) ->
+     Compile.function_lookup R.functions fname (map (fun i => Compile.dtype (tbl i)) ops) = Some (i, o) ->
+     tbl (mk (func_node fname i o (map tbl ops))) = func_node fname i o (map tbl ops)) ->
+  call_method call_ref prim compile_function (flds t0) [FUNC fname xs pinfo] =
+  match seq_compile t0 xs with
+  | Compile.Err e => Exc (CompErr e)
+  | Compile.Ok (t1, ops) =>
+      match Compile.build_function tb fname (map tbl ops) with
+      | Compile.Ok n => Ok (flds t1, nref (mk n))
+      | Compile.Err e => Exc (CompErr e)
+      end
+  end.
+Proof.
+  intros tb t0 pinfo fname xs Hm Hfl Hheap. rewrite (function_src t0 pinfo fname xs Hfl Hheap).
+  destruct (seq_compile t0 xs) as [[t1 ops]|e]; [|reflexivity]. now apply p_function_model.
 Qed.
 
 End Tie.
